@@ -1,4 +1,6 @@
 
+val negb : bool -> bool
+
 type nat =
 | O
 | S of nat
@@ -33,6 +35,11 @@ type z =
 | Z0
 | Zpos of positive
 | Zneg of positive
+
+module Nat :
+ sig
+  val leb : nat -> nat -> bool
+ end
 
 module Pos :
  sig
@@ -69,6 +76,8 @@ module Coq_Pos :
 
   val mul : positive -> positive -> positive
 
+  val size : positive -> positive
+
   val compare_cont : comparison -> positive -> positive -> comparison
 
   val compare : positive -> positive -> comparison
@@ -101,6 +110,8 @@ module N :
   val leb : n -> n -> bool
 
   val ltb : n -> n -> bool
+
+  val log2 : n -> n
 
   val pos_div_eucl : positive -> n -> n * n
 
@@ -156,13 +167,69 @@ module Z :
   val modulo : z -> z -> z
  end
 
+val nth : nat -> 'a1 list -> 'a1 -> 'a1
+
+val rev : 'a1 list -> 'a1 list
+
 val concat : 'a1 list list -> 'a1 list
 
 val map : ('a1 -> 'a2) -> 'a1 list -> 'a2 list
 
+val existsb : ('a1 -> bool) -> 'a1 list -> bool
+
 val forallb : ('a1 -> bool) -> 'a1 list -> bool
 
+val filter : ('a1 -> bool) -> 'a1 list -> 'a1 list
+
+val firstn : nat -> 'a1 list -> 'a1 list
+
+val skipn : nat -> 'a1 list -> 'a1 list
+
 type byte = n
+
+val lF : byte
+
+val cR : byte
+
+val list_eqb : n list -> n list -> bool
+
+val is_digit : n -> bool
+
+val b64_alphabet : byte list
+
+val b64_pad : byte
+
+val b64_char : n -> byte
+
+val b64_index_from : byte list -> n -> byte -> n option
+
+val b64_index : byte -> n option
+
+val is_b64_byte : byte -> bool
+
+val b64_enc3 : byte -> byte -> byte -> byte list
+
+val b64_groups : byte list -> byte list * byte list
+
+val b64_tail : byte list -> byte list
+
+val b64_encode : byte list -> byte list
+
+val b64_writer_go : byte list -> byte list list -> byte list list * byte list
+
+val b64_writer : byte list list -> byte list list * byte list
+
+val is_newline : byte -> bool
+
+val b64_dec4 : n -> n -> n -> n -> byte list
+
+val is_nil : 'a1 list -> bool
+
+val b64_quanta : byte list -> byte list option
+
+val b64_strip : byte list -> byte list
+
+val b64_decode : byte list -> byte list option
 
 val escape_leader : n
 
@@ -171,6 +238,24 @@ val escape_base_json : (n list * n list) list
 val escape_all_chars : n list
 
 val escape_all_first_code : n
+
+val trzsz_letter_ranges : (n * n) list
+
+val trzsz_letter_chars : n list
+
+val send_line_format : n list
+
+val deliver_data_prefix : n list
+
+val data_v2_binary_format : n list
+
+val data_v2_base64_prefix : n list
+
+val data_v1_binary_format : n list
+
+val pause_line_format : n list
+
+val ack_line_format : n list
 
 val leader : byte
 
@@ -225,3 +310,65 @@ val escape_all_pairs : n list -> n -> n list list list
 val builtin_json : bool -> n list list list
 
 val builtin_table : bool -> table
+
+val wire_letter : byte -> bool
+
+val wire_fmt : byte list -> byte list list -> byte list
+
+val wire_dec_go : nat -> n -> byte list -> byte list
+
+val wire_dec : n -> byte list
+
+val wire_undec_go : n -> byte list -> n option
+
+val wire_undec : byte list -> n option
+
+val wire_line : byte list -> byte list -> byte list -> byte list
+
+val wire_int_line : byte list -> n -> byte list -> byte list
+
+val wire_pause_line : byte list -> byte list -> byte list
+
+val wire_ack_line : n -> n -> byte list -> byte list
+
+val wire_data_frame : bool -> byte list -> byte list -> byte list
+
+val wire_data_piece : bool -> byte list -> byte list -> byte list
+
+val wire_frames_go :
+  byte list -> byte list -> nat -> nat list -> nat -> byte list list
+
+val wire_frames : nat list -> nat -> byte list -> byte list list
+
+val wire_resplit :
+  byte list list -> nat list -> nat -> (bool * byte list) list
+
+val wire_render_piece : bool -> byte list -> (bool * byte list) -> byte list
+
+val wire_split_lf : byte list -> (byte list * byte list) option
+
+val wire_split_colon : byte list -> (byte list * byte list) option
+
+val wire_check : byte list -> byte list -> byte list option
+
+val wire_DATA : byte list
+
+val wire_recv :
+  nat -> bool -> byte list -> (byte list list * byte list) option
+
+val wire_encode_bytes : (byte list -> byte list) -> byte list -> byte list
+
+val wire_decode_string :
+  (byte list -> byte list option) -> byte list -> byte list option
+
+val wire_v1_chunk :
+  (byte list -> byte list) -> bool -> table -> byte list -> byte list -> byte
+  list
+
+val wire_v1_decode :
+  (byte list -> byte list option) -> bool -> table -> byte list -> byte list
+  option
+
+val wire_v1_recv :
+  (byte list -> byte list option) -> bool -> table -> byte list -> (byte
+  list * byte list) option
